@@ -428,3 +428,45 @@ Proof.
   intros WF HL HR t b Hin. apply FailedIdle_no_resume; [|exact Hin].
   eapply (run_FailedIdle cfg h WF init); eauto; [apply Inv_init | intros t' []].
 Qed.
+
+(* ------------------------------------------------------------------ *)
+(* (5) done_trials_statuses accumulates over the polls                   *)
+(* ------------------------------------------------------------------ *)
+Lemma update_dict_notin t new : forall acc, ~ In t (map fst new) -> lookup t (update_dict acc new) = lookup t acc.
+Proof.
+  induction new as [|[k s] new IH]; intros acc H; cbn; [reflexivity|]. cbn in H.
+  rewrite IH by tauto. apply lookup_set_key_other. intro E. apply H. left. congruence.
+Qed.
+Lemma update_dict_in t s new : forall acc, NoDup (map fst new) -> In (t, s) new -> lookup t (update_dict acc new) = Some s.
+Proof.
+  induction new as [|[k s'] new IH]; intros acc Hnd Hin; [destruct Hin|]. cbn in Hnd. inversion Hnd as [|? ? Hni Hnd']; subst. cbn.
+  destruct Hin as [E|Hin].
+  - inversion E; subst. rewrite update_dict_notin by exact Hni. apply lookup_set_key_same.
+  - apply IH; assumption.
+Qed.
+Lemma fold_update_notin t post : forall acc, (forall d, In d post -> ~ In t (map fst d)) ->
+  lookup t (fold_left update_dict post acc) = lookup t acc.
+Proof.
+  induction post as [|d post IH]; intros acc H; cbn; [reflexivity|].
+  rewrite IH by (intros d' Hd'; apply H; right; exact Hd'). apply update_dict_notin. apply H. left. reflexivity.
+Qed.
+Lemma lookup_In {A} t (v : A) l : lookup t l = Some v -> In (t, v) l.
+Proof.
+  induction l as [|[k w] l IH]; cbn; [discriminate|]. destruct (k =? t) eqn:E.
+  - intro H. inversion H; subst. left. f_equal. lia.
+  - intro H. right. auto.
+Qed.
+(* a failure seen in some poll is still in the dict handed to _handle_failure at the end, unless the
+   same trial finishes again in a later poll *)
+Lemma failure_remembered t pre d post : NoDup (map fst d) -> In (t, S_Failed) d ->
+  (forall d', In d' post -> ~ In t (map fst d')) ->
+  In (t, S_Failed) (accumulate (pre ++ d :: post)) /\ (0 < num_failed (accumulate (pre ++ d :: post)))%nat.
+Proof.
+  intros Hnd Hin Hpost. unfold accumulate. rewrite fold_left_app. cbn [fold_left].
+  assert (HL : lookup t (fold_left update_dict post (update_dict (fold_left update_dict pre []) d)) = Some S_Failed).
+  { rewrite (fold_update_notin t post _ Hpost). apply update_dict_in; assumption. }
+  apply lookup_In in HL. split; [exact HL|]. unfold num_failed.
+  assert (In (t, S_Failed) (filter (fun e : Z * status => status_eqb (snd e) S_Failed)
+            (fold_left update_dict post (update_dict (fold_left update_dict pre []) d)))) by (apply filter_In; split; [exact HL | reflexivity]).
+  destruct (filter _ _); [destruct H | cbn; lia].
+Qed.
